@@ -94,7 +94,7 @@ def main():
         for cid in [a.id] + [c for c in a.checks.split(",") if c]:
             for tier in ["quick"] + (["thorough"] if a.thorough else []):
                 t = time.time()
-                env = dict(ENV, VERIF_REPO=wt)
+                env = dict(ENV, VERIF_REPO=wt, VERIF_WORK="/verif/.work/seedruns", VERIF_EVIDENCE="/verif/.work/seedruns/evidence")
                 rc, out = sh("python3 /verif/bin/check %s --tier %s" % (cid, tier), cwd="/verif", env=env, timeout=7200)
                 lines = [l for l in out.splitlines() if l.startswith(("VIOLATION", "OK ", "UNDECIDED", "KNOWN-FINDING", "DRIFT"))]
                 verdicts["%s/%s" % (cid, tier)] = {"rc": rc, "wall_s": round(time.time() - t, 1), "lines": [l[:300] for l in lines[:8]]}
@@ -106,7 +106,6 @@ def main():
     finally:
         sh("git -C /repo worktree remove --force %s" % wt)
         # evidence files were rewritten by runs against the scratch tree: they are transient
-        sh("git -C /verif checkout -- evidence 2>/dev/null")
 
 
 def finish(a, res, wt, verdicts):
